@@ -281,6 +281,95 @@ done:
     if (vf_want_sample() && !vf_in_confirm && (idx0 % 97) == 13) vf_sample("transform %s: 4 source sizes x 4 formats x %d filters x 4 repeats x 2 request origins x 3 configurations, every destination pixel compared", tdesc, NFIL);
 }
 
+/* ---------- very wide / very tall sources: the scaled fast paths split a scanline into padding and image parts with arithmetic in
+ * the source size; the property quantifies over all source sizes, so sizes next to the 16.16 limit of the coordinate space belong ---------- */
+static const int BIGS[4] = { 32766, 32765, 32700, 20000 };   /* analyze_extent() drops transformed requests on bits images of 32767 or more pixels a side */
+static const int32_t BSC[6] = { FX1, FX1 / 2, 2 * FX1, 0x5555, FX1 + EPS, -FX1 };
+static const int32_t BSUB[3] = { 0, FX1 / 2, EPS };
+#define BW 8
+static uint32_t big_raw(const ph_fmt_t *f, int i)
+{
+    uint32_t k = (uint32_t)i * 2654435761u;
+    uint32_t argb = (0x30 + (k >> 8 & 0x7f)) << 24 | (k >> 16 & 0xff) << 16 | (k >> 24) << 8 | ((uint32_t)i * 37 & 0xff);
+    /* keep it premultiplied-looking is not needed for SRC; make the last and first pixels unmistakable */
+    uint32_t raw = ph_from_8888(f, argb);
+    if (f->bpp == 32 && !f->aw) raw |= 0x5a000000;
+    return raw;
+}
+typedef struct { int th; } big_ctx;
+static void big_case(uint64_t idx, void *vctx)
+{
+    (void)vctx;
+    int dims[5] = { 3, 7, 6, 4, 2 }, d[5];
+    vf_decode(idx, dims, 5, d);
+    int tall = d[4], S = BIGS[d[3]]; int32_t sc = BSC[d[2]], sub = BSUB[d[0]];
+    /* first sample (source pixels) for positive scales; negative scale walks leftwards from there */
+    int64_t span = ((int64_t)(sc < 0 ? -sc : sc) * BW) >> 16;
+    int margin = (int)span + 6;
+    const int starts[7] = { -70, -3, -1, 0, S / 2, S - margin, 32767 - margin };
+    int start = starts[d[1]];
+    if (sc < 0) start = start + (int)span + 1;
+    if (start > 32767 - 4 || start < -32000) return;
+    pixman_transform_t t; memset(&t, 0, sizeof t);
+    int a = tall ? 1 : 0, b = tall ? 0 : 1;
+    t.matrix[a][a] = sc; t.matrix[a][2] = start * FX1 + sub; t.matrix[b][b] = FX1; t.matrix[b][2] = 0; t.matrix[2][2] = FX1;
+    int sw = tall ? 2 : S, sh = tall ? S : 2, dw = tall ? 2 : BW, dh = tall ? BW : 2;
+    char tdesc[160]; snprintf(tdesc, sizeof tdesc, "[%d %d %d; %d %d %d; 0 0 65536]", t.matrix[0][0], t.matrix[0][1], t.matrix[0][2], t.matrix[1][0], t.matrix[1][1], t.matrix[1][2]);
+    static const pixman_repeat_t reps[4] = { PIXMAN_REPEAT_NONE, PIXMAN_REPEAT_NORMAL, PIXMAN_REPEAT_PAD, PIXMAN_REPEAT_REFLECT };
+    uint64_t ev = 0, nt = 0, hh = 0; char cfgn[64];
+    uint32_t *raw = malloc(sizeof(uint32_t) * (size_t)sw * sh);
+    for (int fi = 0; fi < 4; fi++) {
+        for (int i = 0; i < sw * sh; i++) raw[i] = big_raw(&FM[fi], i);
+        int stride = ph_stride_for(FM[fi].bpp, sw);
+        uint8_t *sbuf = calloc((size_t)stride, (size_t)sh);
+        for (int y = 0; y < sh; y++) for (int x = 0; x < sw; x++) ph_put_pixel(sbuf + (size_t)y * stride, FM[fi].bpp, x, raw[y * sw + x]);
+        pixman_image_t *src = pixman_image_create_bits(FM[fi].code, sw, sh, (uint32_t *)sbuf, stride);
+        pixman_image_set_transform(src, &t);
+        for (int fl = 0; fl < 2; fl++) {
+            pixman_image_set_filter(src, fl ? PIXMAN_FILTER_BILINEAR : PIXMAN_FILTER_NEAREST, NULL, 0);
+            for (int ri = 0; ri < 4; ri++) {
+                pixman_image_set_repeat(src, reps[ri]);
+                rsrc_t rs = { sw, sh, FM[fi], raw, reps[ri] };
+                uint32_t exp[BW][BW]; int judged = 1;
+                for (int y = 0; y < dh; y++) for (int x = 0; x < dw; x++) {
+                    int64_t cx = (int64_t)(2 * x + 1) * (FX1 / 2), cy = (int64_t)(2 * y + 1) * (FX1 / 2);
+                    int64_t vx = ((int64_t)t.matrix[0][0] * cx + (int64_t)t.matrix[0][2] * FX1 + 0x8000) >> 16;
+                    int64_t vy = ((int64_t)t.matrix[1][1] * cy + (int64_t)t.matrix[1][2] * FX1 + 0x8000) >> 16;
+                    if (vx != (int32_t)vx || vy != (int32_t)vy) { judged = 0; continue; }
+                    exp[y][x] = fl ? ref_bilinear(&rs, vx, vy) : ref_nearest(&rs, vx, vy);
+                }
+                if (!judged) continue;
+                for (int di = 0; di < 2; di++) for (int oi = 0; oi < 2; oi++) for (int ci = 0; ci < 3; ci++) {
+                    /* destination a8r8g8b8 / r5g6b5; OP_SRC onto a pattern / OP_OVER onto zero (= the source itself) */
+                    if (oi && !FM[fi].aw) continue;   /* an alpha-less source under OVER is SRC again */
+                    ph_set_cfg(CF[ci]);
+                    uint32_t dbuf[BW][BW]; memset(dbuf, oi ? 0 : 0xa5, sizeof dbuf);
+                    pixman_image_t *dst = pixman_image_create_bits(di ? PIXMAN_r5g6b5 : PIXMAN_a8r8g8b8, dw, dh, &dbuf[0][0], BW * 4);
+                    pixman_image_composite32(oi ? PIXMAN_OP_OVER : PIXMAN_OP_SRC, src, NULL, dst, 0, 0, 0, 0, 0, 0, dw, dh);
+                    pixman_image_unref(dst);
+                    vf_count_libcalls(1); ev++;
+                    for (int y = 0; y < dh; y++) for (int x = 0; x < dw; x++) {
+                        uint32_t got = di ? ((uint16_t *)&dbuf[y][0])[x] : dbuf[y][x], e = exp[y][x];
+                        if (oi && di) continue;                                        /* OVER onto 565 rounds through the blend: not an exact copy */
+                        if (di) { uint32_t r = e >> 16 & 0xff, g = e >> 8 & 0xff, bb = e & 0xff; e = (r >> 3) << 11 | (g >> 2) << 5 | (bb >> 3); }
+                        if (got != e) {
+                            vf_violation("c08-wide-source-sample-mismatch", "source %s %dx%d repeat=%d filter=%s transform %s (first sample at source %s %d%+.5f, step %.5f) %s onto %s PIXMAN_DISABLE=[%s]: destination (%d,%d) = %08x, reference %08x",
+                                         FMN[fi], sw, sh, ri, fl ? "bilinear" : "nearest", tdesc, tall ? "row" : "column", start, sub / 65536.0, sc / 65536.0, oi ? "OVER (onto zero)" : "SRC", di ? "r5g6b5" : "a8r8g8b8",
+                                         ph_cfg_name(CF[ci], cfgn, sizeof cfgn), x, y, got, e);
+                            pixman_image_unref(src); free(sbuf); free(raw); return;
+                        }
+                        if (ci == 0) { hh = vf_mix(hh, got); if (got) nt++; }
+                    }
+                }
+            }
+        }
+        pixman_image_unref(src); free(sbuf);
+    }
+    free(raw);
+    vf_count_eval(ev); vf_count_nontrivial(nt ? ev : 0);
+    if (!vf_in_confirm) vf_outcome(hh);
+}
+
 int main(int argc, char **argv)
 {
     vf_init(argc, argv, "C08", "exploration");
@@ -299,9 +388,12 @@ int main(int argc, char **argv)
     uint64_t naff = th ? (uint64_t)7 * 7 * 5 * 5 * 8 * 8 : (uint64_t)7 * 3 * 3 * 3 * 8 * 3;
     vf_space_run("affine-transforms", naff, c8_case, &ca);
     vf_space_run("projective-transforms", 8 * 4 * 8 * 3, c8_case, &cp);
-    static char b[300];
+    big_ctx cb = { th };
+    vf_space_run("wide-and-tall-sources", 3 * 7 * 6 * 4 * 2, big_case, &cb);
+    static char b[700];
     snprintf(b, sizeof b, "%llu affine transforms (m00 x m11 x m01 x m10 x tx x ty alphabets incl. +-1/2, +-1, 1+e, 2, 1/3 and translations 0, +-e, 1/2-e, 1/2, -1/2, 1, 3-e) + 768 projective; "
-             "%d filters (nearest, bilinear, 7 convolution kernels incl. negative lobes, %d separable tables); 4 repeats; sources 1x1 2x2 3x2 4x4 x 4 formats; 3 configurations",
+             "%d filters (nearest, bilinear, 7 convolution kernels incl. negative lobes, %d separable tables); 4 repeats; sources 1x1 2x2 3x2 4x4 x 4 formats; 3 configurations; wide/tall sources: sizes 32766, 32765, 32700, 20000 (x2 and 2x; the library drops transformed requests on sources of 32767 or more) x 6 scales x 7 first-sample positions "
+             "(left of the image, at its start, middle, end, end of the coordinate range) x 3 sub-pixel offsets x nearest/bilinear x 4 repeats x 4 formats x {SRC, OVER} x {a8r8g8b8, r5g6b5} destinations x 3 configurations",
              (unsigned long long)naff, NFIL, NFIL - 9);
     vf_bounds = b;
     return vf_finish();
